@@ -878,6 +878,36 @@ pub fn gen_init_prog(g: &mut G<'_>) -> InitProg {
     }
 }
 
+/// What a client announces about itself in the handshake response and the server has no business
+/// acting on for any of the properties: its max_packet_size (real clients say 4 MiB, 16 MiB,
+/// 1 GiB; anything is legal) and its character set / collation byte.
+pub fn gen_client_announcements(g: &mut G<'_>) -> (u32, u8) {
+    let max_packet = match g.weighted(&[3, 5, 1]) {
+        0 => 1 << 24,
+        1 => *g.pick(&[0u32, 1024, 4096, 65_535, 65_536, 1 << 20, 4 << 20, (1 << 24) - 1, 1 << 30, u32::MAX]),
+        _ => g.raw(),
+    };
+    let charset = match g.weighted(&[3, 5, 1]) {
+        0 => 0x21,
+        1 => *g.pick(&[8u8, 33, 45, 46, 63, 224, 255, 0]),
+        _ => g.byte(),
+    };
+    (max_packet, charset)
+}
+
+/// apply `gen_client_announcements` to a 4.1-layout handshake response
+pub fn vary_announcements(g: &mut G<'_>, hs: &mut Handshake) {
+    let (mp, cs) = gen_client_announcements(g);
+    match &mut hs.kind {
+        HsKind::V41 { max_packet, charset, .. } => {
+            *max_packet = mp;
+            *charset = cs;
+        }
+        HsKind::V320 { max_packet, .. } => *max_packet = mp & 0xff_ffff,
+        HsKind::Raw(_) => {}
+    }
+}
+
 /// Commands + actions.  Executes refer to statements prepared earlier in the conversation
 /// (with zero parameters, so the parameter block is empty).
 pub fn gen_conv(g: &mut G<'_>, o: &ConvOpts) -> Conversation {
@@ -978,7 +1008,11 @@ pub fn gen_conv(g: &mut G<'_>, o: &ConvOpts) -> Conversation {
     let mut c = Conversation::new(cmds, actions);
     // what follows the handshake must not depend on which legal handshake response it was
     match g.weighted(&[6, 1, 1]) {
-        0 => {}
+        0 => {
+            if g.coin() {
+                vary_announcements(g, &mut c.hs);
+            }
+        }
         1 => {
             c.hs.kind = HsKind::V320 { caps: (g.raw() & CAP_FORMAT_NEUTRAL) as u16, max_packet: g.raw() & 0xff_ffff, user: b"verif".to_vec(), tail: vec![0] };
         }
